@@ -451,7 +451,7 @@ pub fn run(tier: Tier) -> i32 {
         for sched in schedules_for(stream.len(), tier, body.len() > 30000) {
             let case = Case { body: body.clone(), enc: enc.clone(), header_value: hv.clone(), filters: filters.clone(), schedule: sched };
             runs.fetch_add(1, Ordering::Relaxed);
-            let res = match crate::common::guarded(|| check_schedule(&case, &stream, &want)) {
+            let res = match crate::common::watched(|| { let mut c = serde_json::to_value(&case).unwrap(); c["watch_label"] = json!(case.enc.header()); c }, || crate::common::guarded(|| check_schedule(&case, &stream, &want))) {
                 Ok(r) => r,
                 Err((loc, msg)) => Some((format!("panic:{loc}"), format!("panicked at {loc}: {msg}; producer {:?} schedule {:?}", case.enc, case.schedule))),
             };
